@@ -83,7 +83,7 @@ func init() {
 }
 
 var checks = map[string]*Check{
-	"C20": {ID: "C20", Parts: []Part{{Harness: "tools", Func: "C20"}}, Category: "exploration", QuickDeadline: 240, ThoroughDeadline: 1500,
+	"C20": {ID: "C20", Parts: []Part{{Harness: "tools", Func: "C20"}, {Harness: "spectool", Func: "C20spectool"}}, Category: "exploration", QuickDeadline: 240, ThoroughDeadline: 1500,
 		Engine: "E1", DesignRef: "6/C20",
 		Technique:   "bounded-exhaustive enumeration of spec graphs with a reference analysis recomputed from the graph and a parse-back of the Dot and Mermaid renderings",
 		LevelText:   "Every spec graph of the family (missing / variable / empty targets, terminal and unreachable nodes, native and source actions and guards) is compiled, analysed and rendered by the real tools; the analysis must equal a recomputation from the graph and the renderings, parsed back, must contain exactly one node per spec node and one edge per branch; no panic.",
